@@ -184,7 +184,14 @@ def convert(case, csv_text, workdir):
         if env_dir:
             os.environ['CARDUTIL_CONFIG'] = env_dir
         with quiet():
-            if case['entry'] == 'cli':
+            if case['entry'] == 'mideu':
+                # the other extraction command of the package: mideu extract (ebcdic = cp500, ascii = latin1)
+                from cardutil.cli import mideu
+                mci_csv_to_ipm.cli_run(in_filename=inp, out_filename=ipm, out_encoding=enc,
+                                       no1014blocking=not blocked)
+                rc = mideu.cli_entry(['extract', ipm, '-s', 'ebcdic' if enc == 'cp500' else 'ascii',
+                                      '--csvoutputfile', outp] + ([] if blocked else ['--no1014blocking']))
+            elif case['entry'] == 'cli':
                 mci_csv_to_ipm.cli_run(in_filename=inp, out_filename=ipm, out_encoding=enc,
                                        no1014blocking=not blocked)
                 rc = mci_ipm_to_csv.cli_run(in_filename=ipm, out_filename=outp, in_encoding=enc,
@@ -329,6 +336,7 @@ def enumerate_cases(tier, seed):
             cases.append({'cols': ['MTI'] + c, 'rows': rows, 'variant': variant, 'omit': omit, 'enc': enc,
                           'blocked': blocked, 'entry': entry, 'seed': seed})
     all_envs = [(e, b, en) for e in CODECS for b in (False, True) for en in ('func', 'cli', 'argv', 'argv_cfg')]
+    all_envs += [(e, b, 'mideu') for e in ('latin_1', 'cp500') for b in (False, True)]
     # MTI + each single column x every variant x every environment
     for ci, col in enumerate(de_cols + pds_cols + ['DE48']):
         for vi, v in enumerate(variants):
